@@ -140,6 +140,25 @@ def run(ctx):
             res.violation("RELATION", FN, f"kind={KINDS[cls]},sensitive={ds},unknown={uh},filter={filt}",
                           f"find_links says {got!r} but neighbors() {'lists' if ngot == 'OE' else 'does not list'} the other end for the same link and settings",
                           detail=f"link class {cls}, a is {pos}", replay=replay(cls, pos, True, ds, uh, filt))
+    # link classes deriving from *both* edge classes: the statement does not say which rule applies to them, but whichever neighbors()
+    # applies, find_links must apply the same one (its size equals the number of times b occurs in neighbors(a))
+    for cls, pos, ds, uh in itertools.product(("SymBothDU", "SymBothUD"), ("v1", "v2"), (True, False), UHS[:2]):
+        try:
+            h.reset()
+            a, b, l = build(h, cls, pos, True)
+            got = classify(h.call(fn, a, b, ds, C[uh], None), l)
+            ngot = c04.derive_single(h, C, nb, cls, pos, "FORWARD" if ds else "ANY", uh, "none")
+        except Unknown as u:
+            res.undecide(f"relational check on {cls},{pos}: {u}")
+            continue
+        if got not in ("yes", "no") or ngot not in ("OE", "nothing"):
+            continue
+        nrel += 1
+        ok = (got == "yes") == (ngot == "OE")
+        res.ob(ok, sig=("rel-both", cls, pos, ds, uh))
+        if not ok:
+            res.violation("RELATION", FN, f"kind=both-edge-classes,sensitive={ds},unknown={uh},filter=none",
+                          f"a link of a class deriving from DirectedEdge and UnDirectedEdge ({cls}, a is {pos}): find_links says {got!r} but neighbors() {'lists' if ngot == 'OE' else 'does not list'} the other end under the corresponding settings")
     res.rule("RELATION", nrel)
     # ---- several links at once: the result is exactly the set of joining links that qualify one by one, and its size equals the
     # number of times b occurs in neighbors(a) under the corresponding settings
@@ -270,6 +289,8 @@ def run(ctx):
     structural.filter_mpt(ctx, FN)
     from rules import hist
     hist.run(ctx, res, 'C09')       # composition: histories through the public API against the reference model (rules/hist.py)
+    hist.run_sequences(ctx, res, "C09", "links", 4 if ctx.thorough else 3)
+    common.vacuity(res, "SEQUENCE", 5000)
     common.vacuity(res, "HISTORY", 9000)
     common.vacuity(res, "TABLE", 900)
     common.vacuity(res, "RELATION", 100)
